@@ -193,11 +193,27 @@ def run(rep, tier, root=None):
     # ---------------------------------------------------------------- Z3
     f = F("zernIndex")
     I = Interp(ix)
-    got = I.returns(f, [j])
+    got = I.paths(f, [j])
     wn, wm = Interp(ix).returns(ix.func(om.name, "noll_index"), [j])[0][1]
     by = {}
-    for c, v in got:
-        key = "zero" if any(x.startswith("not (m != 0") for x in c) else ("even" if any(x.replace(" ", "") == "j%2==0" for x in c) else "odd")
+    jmod = Rat.atom(Fn("mod", (j, Rat.const(2))))
+    for c, cnf, v in got:
+        key = None
+        for val, truth in cnf:
+            a = val.single_atom() if isinstance(val, Rat) else None
+            if isinstance(a, Fn) and a.name == "cmp" and a.args[0] in ("==", "!="):
+                l, r_ = a.args[1], a.args[2]
+                if same_value(r_, jmod):
+                    l, r_ = r_, l
+                if same_value(l, jmod) and isinstance(r_, Rat) and r_.is_const():
+                    k = int(complex(r_.const_value()).real)
+                    eq = (a.args[0] == "==") == truth           # path asserts j % 2 == k  (or != k)
+                    parity = k if eq else 1 - k
+                    key = "even" if parity == 0 else "odd"
+        if key is None:
+            key = "zero"
+        if key in by:
+            key = key + "'"
         by[key] = v
     if set(by) != {"zero", "even", "odd"} or not all(isinstance(v, (tuple, list)) and len(v) == 2 for v in by.values()):
         rep.unknown("Z3.noll-index", f.fq, "expected paths m == 0 / j even / j odd returning [n, m]", f.where())
